@@ -26,17 +26,19 @@ type vRandJob struct {
 }
 
 type vRandDriver struct {
-	h       *vHarness
-	r       *rand.Rand
-	job     vRandJob
-	st      map[int]string // last state reported per connection
-	open    []int          // open call numbers
-	callDl  map[int]int    // call -> absolute deadline tick (0 none)
-	callM   map[int]string
-	keys    []int // keys that were (probably) bound
-	blocked []int // event indices of blocked picks
-	i       int
-	failing bool
+	h        *vHarness
+	r        *rand.Rand
+	job      vRandJob
+	st       map[int]string // last state reported per connection
+	open     []int          // open call numbers
+	callDl   map[int]int    // call -> absolute deadline tick (0 none)
+	callM    map[int]string
+	callKeys map[int][]int
+	keys     []int // keys that were (probably) bound
+	unbound  []int // keys that were (probably) unbound again
+	blocked  []int // event indices of blocked picks
+	i        int
+	failing  bool
 }
 
 func (d *vRandDriver) pickW(ws []int) int {
@@ -132,6 +134,9 @@ func (d *vRandDriver) step(emit func(vEvent)) bool {
 			pk = np - 1 - d.r.Intn(minInt(np-1, 3))
 		}
 		m := []string{"PLAIN", "BIND", "BOUND", "UNBIND", "NOAFF", "BOUND2"}[d.pickW([]int{35, 22, 30, 9, 2, 2})]
+		if prof == "affinity" {
+			m = []string{"PLAIN", "BIND", "BOUND", "UNBIND", "BOUND2"}[d.pickW([]int{15, 25, 38, 18, 4})]
+		}
 		if prof == "load" {
 			m = []string{"PLAIN", "BIND", "BOUND"}[d.pickW([]int{80, 10, 10})]
 		}
@@ -169,9 +174,15 @@ func (d *vRandDriver) step(emit func(vEvent)) bool {
 		if d.job.Cfg.Uc == 0 {
 			out = []string{"OK", "ERR", "CDE"}[d.pickW([]int{75, 20, 5})]
 		}
+		if d.callM[n] == "UNBIND" && d.r.Intn(100) < 70 {
+			out = "OK"
+		}
 		st = vStep{Op: "done", N: n, Out: out}
 		if d.callM[n] == "BIND" && out == "OK" {
 			k := 1 + d.r.Intn(4)
+			if len(d.unbound) > 0 && d.r.Intn(100) < 60 {
+				k = d.unbound[d.r.Intn(len(d.unbound))] // bind a key again after it was unbound
+			}
 			st.Rkeys = []int{k}
 			if d.r.Intn(8) == 0 {
 				st.Rkeys = append(st.Rkeys, 1+d.r.Intn(4))
@@ -213,6 +224,7 @@ func (d *vRandDriver) note(ev vEvent) {
 		d.open = append(d.open, ev.RN)
 		d.callDl[ev.RN] = ev.Dl
 		d.callM[ev.RN] = ev.M
+		d.callKeys[ev.RN] = ev.Keys
 	}
 	if ev.Op == "pick" && ev.Res == "BLOCKED" {
 		d.blocked = append(d.blocked, ev.I)
@@ -237,6 +249,9 @@ func (d *vRandDriver) note(ev vEvent) {
 		if ev.Out == "OK" {
 			for _, k := range ev.Rkeys {
 				d.keys = append(d.keys, k)
+			}
+			if d.callM[ev.N] == "UNBIND" && len(d.callKeys[ev.N]) > 0 {
+				d.unbound = append(d.unbound, d.callKeys[ev.N][0])
 			}
 		}
 	}
@@ -285,7 +300,7 @@ func vNormEvent(ev *vEvent) {
 func vRunRandom(job vRandJob, emit func(vEvent)) {
 	verifSetTicks(0)
 	h := newVHarness(job.Cfg)
-	d := &vRandDriver{h: h, r: rand.New(rand.NewSource(job.Seed)), job: job, st: map[int]string{}, callDl: map[int]int{}, callM: map[int]string{}}
+	d := &vRandDriver{h: h, r: rand.New(rand.NewSource(job.Seed)), job: job, st: map[int]string{}, callDl: map[int]int{}, callM: map[int]string{}, callKeys: map[int][]int{}}
 	rst := vEvent{Sid: job.Id, Op: "reset", Cfg: job.Cfg, Res: "OK", Probe: "-"}
 	vNormEvent(&rst)
 	emit(rst)
